@@ -943,3 +943,25 @@ Section ValidityMask.
   Qed.
   Local Transparent Z.mul.
 End ValidityMask.
+
+(* ------------------------------------------------------------------ *)
+(* soundness stated with the FULL Holm-Bonferroni value                *)
+Lemma sdg_sound_full_holm : forall st mask x v up g,
+  Forall (fun q => 0 <= q <= pi_SP x) (pi_p x) -> pi_T x <= pi_SP x ->
+  margin (st_S st) (st_th st) ->
+  - st_S st < q1_min (st_th st) -> q1_min (st_th st) < q1_th (st_th st) ->
+  score_differential_genes st mask x = POk (v, up) -> nth_error v g = Some true ->
+  st_n_min st <= pi_n1 x /\ st_n_min st <= pi_n2 x /\
+  (exists h, nth_error (correct_ttest (pi_SP x) 0 (pi_p x)) g = Some h /\ h < pi_T x) /\
+  in_list mask g /\
+  exists sc, nth_error (pi_scores x) g = Some sc /\ crit (st_th st) (st_exact st) sc.
+Proof.
+  intros st mask x v up g Hr HT HM Hf Ho H Hg.
+  destruct (sdg_sound st mask x v up g HM Hf Ho H Hg) as (N1 & N2 & (a & Ha & Hlt) & Hin & Hsc).
+  split; [exact N1|]. split; [exact N2|]. split; [|split; [exact Hin | exact Hsc]].
+  assert (Hg' : (g < length (pi_p x))%nat).
+  { rewrite <- (approx_length (pi_SP x) (pi_T x)). apply nth_error_Some. congruence. }
+  destruct (nth_error (pi_p x) g) as [q|] eqn:Eq; [|apply nth_error_None in Eq; lia].
+  destruct (restricted_holm_at (pi_SP x) (pi_T x) (pi_p x) Hr HT g q Eq) as (_ & _ & a' & h & Ea & Eh & Hiff).
+  rewrite Ha in Ea. inversion Ea; subst a'. exists h. split; [exact Eh | apply Hiff; exact Hlt].
+Qed.
